@@ -44,7 +44,7 @@ m = {
                  "kind_free_text": "Coq 8.16 development (model, proofs, executable acceptors/monitors) + Rust harness producing observations of the real crate + Python driver"}],
     "checks": checks,
     "not_applicable": na,
-    "notes": "See DESIGN.md. Fix commits in /repo are recorded in known_findings.jsonl.",
+    "notes": "See DESIGN.md. Fix commits in /repo (11) and the one open known finding (C11: guess key usize::MAX, printed as KNOWN-FINDING by ./check C11) are recorded in known_findings.jsonl.",
 }
 json.dump(m, open(os.path.join(ROOT, "MANIFEST.json"), "w"), indent=1)
 print("MANIFEST.json: %d checks, %d not_applicable" % (len(checks), len(na)))
